@@ -234,13 +234,33 @@ def _is_readable(sock):
 
 # ------------------------------------------------------------------ anyio namespace
 
-@contextlib.contextmanager
-def _fail_after(delay):
-    _SCOPES.append(None if delay is None or delay == float("inf") else delay)
+class _ScopeCancelled(BaseException):
+    """How a deadline reaches the awaited operation in anyio / trio: the operation is *cancelled* (a BaseException that
+    `map_exceptions` does not see); the enclosing fail_after() turns the cancellation into TimeoutError / TooSlowError when
+    it exits.  So the position of fail_after relative to map_exceptions matters, exactly as in the real runtimes."""
+
+
+def _make_fail_after(timeout_exc):
+    @contextlib.contextmanager
+    def _fail_after(delay):
+        _SCOPES.append(None if delay is None or delay == float("inf") else delay)
+        try:
+            yield
+        except _ScopeCancelled:
+            raise timeout_exc() from None
+        finally:
+            _SCOPES.pop()
+    return _fail_after
+
+
+async def _deadline_aware(coro, timeout_types):
+    """Runs a simulated operation; an injected timeout becomes the cancellation of the innermost deadline scope."""
     try:
-        yield
-    finally:
-        _SCOPES.pop()
+        return await coro
+    except timeout_types:
+        if _SCOPES:
+            raise _ScopeCancelled() from None
+        raise
 
 
 class _RawSock:
@@ -279,7 +299,7 @@ def _anyio_namespace():
         async def receive(self, max_bytes=65536):
             if self._s._tr.closed:
                 raise real.ClosedResourceError
-            data = await self._s.read(max_bytes, timeout=_cur_timeout())
+            data = await _deadline_aware(self._s.read(max_bytes, timeout=_cur_timeout()), (TimeoutError,))
             if data == b"":
                 raise real.EndOfStream
             return data
@@ -287,7 +307,7 @@ def _anyio_namespace():
         async def send(self, item):
             if self._s._tr.closed:
                 raise real.ClosedResourceError
-            await self._s.write(bytes(item), timeout=_cur_timeout())
+            await _deadline_aware(self._s.write(bytes(item), timeout=_cur_timeout()), (TimeoutError,))
 
         async def aclose(self):
             await self._s.aclose()
@@ -309,15 +329,15 @@ def _anyio_namespace():
         async def wrap(cls, transport_stream, *, ssl_context=None, hostname=None, standard_compatible=True, server_side=False, **kw):
             if transport_stream._s._tr.closed:
                 raise real.ClosedResourceError
-            ns_ = await transport_stream._s.start_tls(ssl_context, hostname, timeout=_cur_timeout())
+            ns_ = await _deadline_aware(transport_stream._s.start_tls(ssl_context, hostname, timeout=_cur_timeout()), (TimeoutError,))
             return FakeAnyioStream(ns_, tls=True)
 
     async def connect_tcp(remote_host, remote_port, *, local_host=None, **kw):
-        s = await CURRENT[0].connect_tcp(remote_host, remote_port, timeout=_cur_timeout(), local_address=local_host)
+        s = await _deadline_aware(CURRENT[0].connect_tcp(remote_host, remote_port, timeout=_cur_timeout(), local_address=local_host), (TimeoutError,))
         return FakeAnyioStream(s)
 
     async def connect_unix(path):
-        s = await CURRENT[0].connect_unix_socket(path, timeout=_cur_timeout())
+        s = await _deadline_aware(CURRENT[0].connect_unix_socket(path, timeout=_cur_timeout()), (TimeoutError,))
         return FakeAnyioStream(s)
 
     async def sleep(seconds):
@@ -325,7 +345,7 @@ def _anyio_namespace():
 
     ns = types.SimpleNamespace(
         BrokenResourceError=real.BrokenResourceError, ClosedResourceError=real.ClosedResourceError, EndOfStream=real.EndOfStream,
-        abc=real.abc, fail_after=_fail_after, connect_tcp=connect_tcp, connect_unix=connect_unix, sleep=sleep,
+        abc=real.abc, fail_after=_make_fail_after(TimeoutError), connect_tcp=connect_tcp, connect_unix=connect_unix, sleep=sleep,
         streams=types.SimpleNamespace(tls=types.SimpleNamespace(TLSStream=FakeTLSStream, TLSAttribute=real.streams.tls.TLSAttribute)))
     return ns
 
@@ -349,13 +369,13 @@ def _trio_namespace():
         async def receive_some(self, max_bytes=None):
             if self._s._tr.closed:
                 raise real.ClosedResourceError
-            return await self._s.read(max_bytes or 65536, timeout=_cur_timeout())
+            return await _deadline_aware(self._s.read(max_bytes or 65536, timeout=_cur_timeout()), (real.TooSlowError,))
 
         async def send_all(self, data):
             if self._s._tr.closed:
                 raise real.ClosedResourceError
             if data:
-                await self._s.write(bytes(data), timeout=_cur_timeout())
+                await _deadline_aware(self._s.write(bytes(data), timeout=_cur_timeout()), (real.TooSlowError,))
 
         async def aclose(self):
             await self._s.aclose()
@@ -382,14 +402,14 @@ def _trio_namespace():
             base = self._under()
             if base._tr.closed:
                 raise real.ClosedResourceError
-            self._s = await base.start_tls(self._ctx, self._sni, timeout=_cur_timeout())
+            self._s = await _deadline_aware(base.start_tls(self._ctx, self._sni, timeout=_cur_timeout()), (real.TooSlowError,))
 
         async def receive_some(self, max_bytes=None):
             if self._s is None:
                 await self.do_handshake()
             if self._s._tr.closed:
                 raise real.ClosedResourceError
-            return await self._s.read(max_bytes or 65536, timeout=_cur_timeout())
+            return await _deadline_aware(self._s.read(max_bytes or 65536, timeout=_cur_timeout()), (real.TooSlowError,))
 
         async def send_all(self, data):
             if self._s is None:
@@ -397,17 +417,17 @@ def _trio_namespace():
             if self._s._tr.closed:
                 raise real.ClosedResourceError
             if data:
-                await self._s.write(bytes(data), timeout=_cur_timeout())
+                await _deadline_aware(self._s.write(bytes(data), timeout=_cur_timeout()), (real.TooSlowError,))
 
         async def aclose(self):
             await (self._s if self._s is not None else self._under()).aclose()
 
     async def open_tcp_stream(host, port, *, local_address=None, **kw):
-        s = await CURRENT[0].connect_tcp(host, port, timeout=_cur_timeout(), local_address=local_address)
+        s = await _deadline_aware(CURRENT[0].connect_tcp(host, port, timeout=_cur_timeout(), local_address=local_address), (real.TooSlowError,))
         return SocketStream(s)
 
     async def open_unix_socket(path):
-        s = await CURRENT[0].connect_unix_socket(path, timeout=_cur_timeout())
+        s = await _deadline_aware(CURRENT[0].connect_unix_socket(path, timeout=_cur_timeout()), (real.TooSlowError,))
         return SocketStream(s)
 
     async def sleep(seconds):
@@ -415,7 +435,7 @@ def _trio_namespace():
 
     return types.SimpleNamespace(
         TooSlowError=real.TooSlowError, BrokenResourceError=real.BrokenResourceError, ClosedResourceError=real.ClosedResourceError,
-        abc=real.abc, fail_after=_fail_after, open_tcp_stream=open_tcp_stream, open_unix_socket=open_unix_socket, sleep=sleep,
+        abc=real.abc, fail_after=_make_fail_after(real.TooSlowError), open_tcp_stream=open_tcp_stream, open_unix_socket=open_unix_socket, sleep=sleep,
         SSLStream=SSLStream, SocketStream=SocketStream)
 
 
